@@ -83,6 +83,12 @@ def harnesses(ctx, tier):
                        functions=["_yr_scan_verify_chained_string_match", "_yr_scan_update_match_chain_length", "_yr_scan_add_match_to_list", "_yr_scan_remove_match_from_list"],
                        stubs=["yr_notebook_alloc -> malloc", "yr_get_configuration_uint32 -> max match data 8"])
 
+    K2 = 7 if tier == "quick" else 8
+    hs.append(Harness(name="H5_atoms_from_hex_ast", src="c02/atoms_re.c", defines=["-DVF_K=%d" % K2], unwind=K2 + 4, timeout=900,
+                      desc="_yr_atoms_extract_from_re on a sequence of %d byte tokens (literal / masked / ??, all values) with any quality function: the chosen atom's bytes are those of the consecutive tokens its re_nodes point to" % K2,
+                      bounds="%d tokens; quality nondeterministic per call" % K2,
+                      functions=["_yr_atoms_extract_from_re", "_yr_atoms_trim", "_yr_atoms_tree_node_create", "_yr_atoms_tree_node_append"], stubs=["config->get_atom_quality -> nondet", "yr_stack_* -> typed array stack"]))
+
     def has_chain(K, seq):
         i = 0
         for k in range(K):
